@@ -384,6 +384,10 @@ impl Sweep<'_> {
 		let mut first_known: Option<Violation> = None;
 		for &n in points {
 			let mut process_ok = false;
+			// the process-crash image of this very point already failed as F9's interrupted
+			// index update: a power-loss image of the same point (which holds at most what the
+			// process image holds) failing out of the B+tree code is the same finding
+			let mut process_f9 = false;
 			for (mi, cm) in [CrashModel::Process, CrashModel::PowerLoss, CrashModel::PowerLoss].iter().enumerate() {
 				// C10 quantifies over process-crash images only (the version index is
 				// updated in place and makes no power-loss promise)
@@ -431,10 +435,13 @@ impl Sweep<'_> {
 					// index the store cannot read. Attributed only when the process-crash image of
 					// the very same point recovers, the failing image is a power-loss one, and the
 					// failure comes out of the B+tree code.
-					if (process_ok && crate::recovery::index_torn_by_power_loss(&plan.opts, *cm == CrashModel::PowerLoss, &v))
+					if ((process_ok || process_f9) && crate::recovery::index_torn_by_power_loss(&plan.opts, *cm == CrashModel::PowerLoss, &v))
 						|| (*cm == CrashModel::Process && crate::recovery::index_update_interrupted(&plan.opts, ops, n, &v))
 					{
 						v.explained = Some("version_index_torn_by_power_loss".into());
+						if *cm == CrashModel::Process {
+							process_f9 = true;
+						}
 					}
 					if v.class == "not_prefix" && self.focus == Focus::C02 && acked_write_missing(&r.contents, model, lo, hi) {
 						v.class = "acked_write_missing".into();
